@@ -13,7 +13,7 @@ func init() {
 	register("C06", propMeta{
 		Explanation: "Decides determinism and locality of the replicated apply path — the necessary condition for two replicas that applied the same entries to be equal: (R1) nothing non-deterministic (clocks, random numbers, environment, map iteration order, pointer formatting) flows into hashes, store mutations, cache contents, snapshots or the persisted FSM state from any function reachable from FSM.Apply (interprocedural taint over provenance terms); " +
 			"(R2) events are hashed once by the proposer and replicas apply the decoded digests unmodified; (R3) reads are served by the local balloon, never through raft; (R4) goroutines on the apply path are joined and what they write is read only after the join; (R5) replay filter, single atomic writer and command codec as in C05/C07/C13; (R6) every replica rebuilds its caches from its store identically on restart (rebuild consumes exactly what was read).",
-		Added:       "Also (R7) a replica rejoining by state transfer asks for, is sent and loads exactly what it lacks; every command is decoded into a fresh destination (R5). Third round: (R5) no recover on the apply path; (R2) hasher factories are fresh; (R7) a restore always transfers and the per-batch callback's refusal ends it.",
+		Added:       "Also (R7) a replica rejoining by state transfer asks for, is sent and loads exactly what it lacks; every command is decoded into a fresh destination (R5). Third round: (R5) no recover on the apply path; (R2) hasher factories are fresh; (R7) a restore always transfers and the per-batch callback's refusal ends it. Fifth round: RebuildCache reads the persisted tiles on every path.",
 		Assumptions: []string{"raft delivers the same committed entries in the same order to every replica"},
 		Declined:    "equality of replicas across stop/restart/transfer sequences as a statement over fault sequences; that one replica's proofs verify against another's snapshots (follows from determinism + C01, not checked as such).",
 	}, runC06)
